@@ -141,4 +141,291 @@ theorem gclean_requests (sys : Sys P) (hk : SlotCoherent sys) (n : Nat) : ∀ (k
             · exact hcl v p x hj
           · exact hcl
 
+
+/-! ## requests under faults, against the fault-free system
+
+`a` is the system as it is while some faults are armed, `z` the same rules with fewer (no) faults.
+Along any history the cache holds meanings of `z` (`Cons z`): values completed before a fault was
+armed stay, and are served.  Under `a`, from such a state:
+
+* soundness (`run_faulty_sound`): whatever a request returns as a VALUE is the meaning under `z`,
+  nothing is tainted or marked, and the cache still holds only meanings of `z` — whatever failed;
+* completeness (`run_faulty_complete`): a request whose meaning under `a` is a value returns it.
+-/
+
+theorem slot_of_ckey (a z : Sys P) (hck : a.ckey = z.ckey) (k : Node P) : a.slot k = z.slot k := by
+  simp [Sys.slot, hck]
+
+theorem cons_store_other (a z : Sys P) (hck : a.ckey = z.ckey) (hk : SlotCoherent z) {c : Cache P} {v p x n}
+    (hc : Cons z c) (h : den z n v p = some (.ok x)) : Cons z (store a c (a.slot (v, p)) x false) := by
+  unfold store; split
+  · exact hc
+  · rw [slot_of_ckey a z hck]; exact cons_insert z hk hc h
+
+mutual
+theorem run_faulty_sound (a z : Sys P) (hab : FewerFaults a z) (hck : a.ckey = z.ckey) (hk : SlotCoherent z)
+    (rk : Nat → Nat) (hr : VarRanked z rk) (hmsl : 1 ≤ a.msl) :
+    ∀ n s v p r g s', Cons z s.cache → Above rk s.stack v → s.inval = [] → run a n s v p = some (r, g, s') →
+      g = false ∧ Cons z s'.cache ∧ s'.inval = [] ∧ ∀ x, r = .ok x → ∃ m, den z m v p = some (.ok x)
+  | 0, _, _, _, _, _, _, _, _, _, h => by simp [run] at h
+  | n+1, s, v, p, r, g, s', hc, ha, hi, h => by
+    have hfil := above_filter_nil ha
+    obtain ⟨e1, e2, e3, e4, e5, e6, e7⟩ := hab
+    unfold run at h
+    split at h
+    · rename_i y gy hy
+      rw [slot_of_ckey a z hck] at hy
+      obtain ⟨hg, m, hm⟩ := hc v p y gy hy
+      simp only [Option.some.injEq, Prod.mk.injEq] at h
+      obtain ⟨rfl, rfl, rfl⟩ := h
+      refine ⟨hg, ?_, ?_, ?_⟩
+      · split <;> exact hc
+      · split
+        · rename_i hmem; rw [hi] at hmem; simp at hmem
+        · exact hi
+      · intro x hx; cases hx; exact ⟨m, hm⟩
+    · split at h
+      · rename_i y hin
+        simp only [Option.some.injEq, Prod.mk.injEq] at h
+        obtain ⟨rfl, rfl, rfl⟩ := h
+        refine ⟨rfl, hc, hi, fun x hx => ?_⟩
+        cases hx
+        exact ⟨1, by simp [den, ← e2, hin]⟩
+      · rename_i hin
+        split at h
+        · simp only [Option.some.injEq, Prod.mk.injEq] at h
+          obtain ⟨rfl, rfl, rfl⟩ := h
+          exact ⟨rfl, hc, hi, fun x hx => by cases hx⟩
+        · rw [hfil] at h
+          rw [if_neg (by simp only [List.length_nil]; omega)] at h
+          split at h
+          · rename_i hf
+            simp only [Option.some.injEq, Prod.mk.injEq] at h
+            obtain ⟨rfl, rfl, rfl⟩ := h
+            have key : den z 1 v p = some (.ok (a.post v (a.dflt v))) := by
+              simp [den, ← e2, hin, ← e1, hf, e3, e4]
+            exact ⟨rfl, cons_store_other a z hck hk hc key, hi, fun x hx => by cases hx; exact ⟨1, key⟩⟩
+          · rename_i e hf
+            have hfz : z.formula v p = some e := by rw [← e1]; exact hf
+            have habv : ∀ k ∈ refs e, Above rk ((v, p) :: s.stack) k.1 := fun k hk' j hj => by
+              rcases List.mem_cons.mp hj with rfl | hj
+              · exact hr v p e hfz k hk'
+              · exact Nat.lt_trans (hr v p e hfz k hk') (ha j hj)
+            split at h
+            · cases h
+            · rename_i er g1 s1 hre
+              obtain ⟨hg1, hc1, hi1, _⟩ := runE_faulty_sound a z ⟨e1, e2, e3, e4, e5, e6, e7⟩ hck hk rk hr hmsl n
+                { s with stack := (v, p) :: s.stack } e _ _ _ hc habv hi hre
+              simp only [Option.some.injEq, Prod.mk.injEq] at h
+              obtain ⟨rfl, rfl, rfl⟩ := h
+              exact ⟨hg1, hc1, hi1, fun x hx => by cases hx⟩
+            · rename_i y g1 s1 hre
+              obtain ⟨hg1, hc1, hi1, hv1⟩ := runE_faulty_sound a z ⟨e1, e2, e3, e4, e5, e6, e7⟩ hck hk rk hr hmsl n
+                { s with stack := (v, p) :: s.stack } e _ _ _ hc habv hi hre
+              simp only [Option.some.injEq, Prod.mk.injEq] at h
+              obtain ⟨rfl, rfl, rfl⟩ := h
+              obtain ⟨m, hm⟩ := hv1 y rfl
+              have key : den z (m+1) v p = some (.ok (a.post v y)) := by
+                simp [den, ← e2, hin, hfz, hm, e4]
+              subst hg1
+              exact ⟨rfl, cons_store_other a z hck hk hc1 key, hi1, fun x hx => by cases hx; exact ⟨m+1, key⟩⟩
+theorem runE_faulty_sound (a z : Sys P) (hab : FewerFaults a z) (hck : a.ckey = z.ckey) (hk : SlotCoherent z)
+    (rk : Nat → Nat) (hr : VarRanked z rk) (hmsl : 1 ≤ a.msl) :
+    ∀ n s e r g s', Cons z s.cache → (∀ k ∈ refs e, Above rk s.stack k.1) → s.inval = [] →
+      runE a n s e = some (r, g, s') →
+      g = false ∧ Cons z s'.cache ∧ s'.inval = [] ∧ ∀ x, r = .ok x → ∃ m, denE z m e = some (.ok x)
+  | _, s, .const k, r, g, s', hc, _, hi, h => by
+    simp only [runE, Option.some.injEq, Prod.mk.injEq] at h
+    obtain ⟨rfl, rfl, rfl⟩ := h
+    exact ⟨rfl, hc, hi, fun x hx => by cases hx; exact ⟨0, by simp [denE]⟩⟩
+  | _, s, .bad, r, g, s', hc, _, hi, h => by
+    simp only [runE, Option.some.injEq, Prod.mk.injEq] at h
+    obtain ⟨rfl, rfl, rfl⟩ := h
+    exact ⟨rfl, hc, hi, fun x hx => by cases hx⟩
+  | n, s, .ref v p, r, g, s', hc, ha, hi, h => by
+    simp only [runE] at h
+    obtain ⟨h1, h2, h3, h4⟩ := run_faulty_sound a z hab hck hk rk hr hmsl n s v p r g s' hc (ha (v, p) (by simp [refs])) hi h
+    exact ⟨h1, h2, h3, fun x hx => by obtain ⟨m, hm⟩ := h4 x hx; exact ⟨m, by simp [denE, hm]⟩⟩
+  | n, s, .fail id b, r, g, s', hc, ha, hi, h => by
+    simp only [runE] at h
+    split at h
+    · simp only [Option.some.injEq, Prod.mk.injEq] at h
+      obtain ⟨rfl, rfl, rfl⟩ := h
+      exact ⟨rfl, hc, hi, fun x hx => by cases hx⟩
+    · rename_i harm
+      obtain ⟨h1, h2, h3, h4⟩ := runE_faulty_sound a z hab hck hk rk hr hmsl n s b r g s' hc
+        (fun k hk' => ha k (by simpa [refs] using hk')) hi h
+      refine ⟨h1, h2, h3, fun x hx => ?_⟩
+      obtain ⟨m, hm⟩ := h4 x hx
+      have hz : ¬ z.armed id = true := fun hb => harm (hab.2.2.2.2.2.2 id hb)
+      exact ⟨m, by simp [denE, hz, hm]⟩
+  | n, s, .op1 o b, r, g, s', hc, ha, hi, h => by
+    simp only [runE] at h
+    have hab' : ∀ k ∈ refs b, Above rk s.stack k.1 := fun k hk' => ha k (by simpa [refs] using hk')
+    split at h
+    · cases h
+    · rename_i er g1 s1 hb
+      obtain ⟨h1, h2, h3, _⟩ := runE_faulty_sound a z hab hck hk rk hr hmsl n s b _ _ _ hc hab' hi hb
+      simp only [Option.some.injEq, Prod.mk.injEq] at h
+      obtain ⟨rfl, rfl, rfl⟩ := h
+      exact ⟨h1, h2, h3, fun x hx => by cases hx⟩
+    · rename_i y g1 s1 hb
+      obtain ⟨h1, h2, h3, h4⟩ := runE_faulty_sound a z hab hck hk rk hr hmsl n s b _ _ _ hc hab' hi hb
+      simp only [Option.some.injEq, Prod.mk.injEq] at h
+      obtain ⟨rfl, rfl, rfl⟩ := h
+      refine ⟨h1, h2, h3, fun x hx => ?_⟩
+      cases hx
+      obtain ⟨m, hm⟩ := h4 y rfl
+      exact ⟨m, by simp [denE, hm, hab.2.2.2.2.1]⟩
+  | n, s, .op2 o b c, r, g, s', hc, ha, hi, h => by
+    simp only [runE] at h
+    have hab1 : ∀ k ∈ refs b, Above rk s.stack k.1 := fun k hk' => ha k (by simp [refs, hk'])
+    have hab2 : ∀ k ∈ refs c, Above rk s.stack k.1 := fun k hk' => ha k (by simp [refs, hk'])
+    split at h
+    · cases h
+    · rename_i er g1 s1 hb
+      obtain ⟨h1, h2, h3, _⟩ := runE_faulty_sound a z hab hck hk rk hr hmsl n s b _ _ _ hc hab1 hi hb
+      simp only [Option.some.injEq, Prod.mk.injEq] at h
+      obtain ⟨rfl, rfl, rfl⟩ := h
+      exact ⟨h1, h2, h3, fun x hx => by cases hx⟩
+    · rename_i y g1 s1 hb
+      obtain ⟨h1, h2, h3, h4⟩ := runE_faulty_sound a z hab hck hk rk hr hmsl n s b _ _ _ hc hab1 hi hb
+      have hst1 := runE_stack a n s b _ _ _ hb
+      split at h
+      · cases h
+      · rename_i er g2 s2 hcc
+        obtain ⟨k1, k2, k3, _⟩ := runE_faulty_sound a z hab hck hk rk hr hmsl n s1 c _ _ _ h2 (by rw [hst1]; exact hab2) h3 hcc
+        simp only [Option.some.injEq, Prod.mk.injEq] at h
+        obtain ⟨rfl, rfl, rfl⟩ := h
+        exact ⟨by simp [h1, k1], k2, k3, fun x hx => by cases hx⟩
+      · rename_i w g2 s2 hcc
+        obtain ⟨k1, k2, k3, k4⟩ := runE_faulty_sound a z hab hck hk rk hr hmsl n s1 c _ _ _ h2 (by rw [hst1]; exact hab2) h3 hcc
+        simp only [Option.some.injEq, Prod.mk.injEq] at h
+        obtain ⟨rfl, rfl, rfl⟩ := h
+        refine ⟨by simp [h1, k1], k2, k3, fun x hx => ?_⟩
+        cases hx
+        obtain ⟨ma, hma⟩ := h4 y rfl
+        obtain ⟨mb, hmb⟩ := k4 w rfl
+        refine ⟨max ma mb, ?_⟩
+        simp only [denE]
+        rw [denE_mono_le z hma (Nat.le_max_left _ _), denE_mono_le z hmb (Nat.le_max_right _ _), hab.2.2.2.2.2.1]
+end
+
+mutual
+theorem run_faulty_complete (a z : Sys P) (hab : FewerFaults a z) (hck : a.ckey = z.ckey) (hk : SlotCoherent z)
+    (rk : Nat → Nat) (hr : VarRanked z rk) (hmsl : 1 ≤ a.msl) :
+    ∀ n s v p x, Cons z s.cache → Above rk s.stack v → s.inval = [] → den a n v p = some (.ok x) →
+      ∃ s', run a n s v p = some (.ok x, false, s')
+  | 0, _, _, _, _, _, _, _, h => by simp [den] at h
+  | n+1, s, v, p, x, hc, ha, hi, h => by
+    have hnot := above_not_mem ha p
+    have hfil := above_filter_nil ha
+    unfold run
+    split
+    · rename_i y gy hy
+      rw [slot_of_ckey a z hck] at hy
+      obtain ⟨hg, m, hm⟩ := hc v p y gy hy
+      have hz := den_fewerFaults a z hab (n+1) v p x h
+      have := den_det z hm hz
+      cases this; subst hg
+      exact ⟨_, rfl⟩
+    · unfold den at h
+      split at h
+      · rename_i y hy
+        cases h
+        exact ⟨s, rfl⟩
+      · rename_i hin
+        rw [if_neg hnot, hfil, if_neg (by simp only [List.length_nil]; omega)]
+        split at h
+        · rename_i hf
+          cases h
+          exact ⟨_, rfl⟩
+        · rename_i e hf
+          have hfz : z.formula v p = some e := by rw [← hab.1]; exact hf
+          have habv : ∀ k ∈ refs e, Above rk ((v, p) :: s.stack) k.1 := fun k hk' j hj => by
+            rcases List.mem_cons.mp hj with rfl | hj
+            · exact hr v p e hfz k hk'
+            · exact Nat.lt_trans (hr v p e hfz k hk') (ha j hj)
+          split at h
+          · cases h
+          · cases h
+          · rename_i y hde
+            obtain ⟨s1, hr1⟩ := runE_faulty_complete a z hab hck hk rk hr hmsl n { s with stack := (v, p) :: s.stack } e y hc habv hi hde
+            cases h
+            simp only [hr1]
+            exact ⟨_, rfl⟩
+theorem runE_faulty_complete (a z : Sys P) (hab : FewerFaults a z) (hck : a.ckey = z.ckey) (hk : SlotCoherent z)
+    (rk : Nat → Nat) (hr : VarRanked z rk) (hmsl : 1 ≤ a.msl) :
+    ∀ n s e x, Cons z s.cache → (∀ k ∈ refs e, Above rk s.stack k.1) → s.inval = [] →
+      denE a n e = some (.ok x) → ∃ s', runE a n s e = some (.ok x, false, s')
+  | _, s, .const k, x, _, _, _, h => by
+    simp only [denE] at h; cases h; exact ⟨s, by simp [runE]⟩
+  | _, s, .bad, x, _, _, _, h => by simp [denE] at h
+  | n, s, .ref v p, x, hc, ha, hi, h => by
+    simp only [denE] at h
+    simpa [runE] using run_faulty_complete a z hab hck hk rk hr hmsl n s v p x hc (ha (v, p) (by simp [refs])) hi h
+  | n, s, .fail id b, x, hc, ha, hi, h => by
+    simp only [denE] at h
+    split at h
+    · cases h
+    · rename_i harm
+      obtain ⟨s1, h1⟩ := runE_faulty_complete a z hab hck hk rk hr hmsl n s b x hc (fun k hk' => ha k (by simpa [refs] using hk')) hi h
+      exact ⟨s1, by simp [runE, harm, h1]⟩
+  | n, s, .op1 o b, x, hc, ha, hi, h => by
+    simp only [denE] at h
+    split at h
+    · cases h
+    · cases h
+    · rename_i y hdb
+      obtain ⟨s1, h1⟩ := runE_faulty_complete a z hab hck hk rk hr hmsl n s b y hc (fun k hk' => ha k (by simpa [refs] using hk')) hi hdb
+      cases h
+      exact ⟨s1, by simp [runE, h1]⟩
+  | n, s, .op2 o b c, x, hc, ha, hi, h => by
+    simp only [denE] at h
+    have hab1 : ∀ k ∈ refs b, Above rk s.stack k.1 := fun k hk' => ha k (by simp [refs, hk'])
+    have hab2 : ∀ k ∈ refs c, Above rk s.stack k.1 := fun k hk' => ha k (by simp [refs, hk'])
+    split at h
+    · cases h
+    · cases h
+    · rename_i y hdb
+      obtain ⟨s1, h1⟩ := runE_faulty_complete a z hab hck hk rk hr hmsl n s b y hc hab1 hi hdb
+      obtain ⟨_, hc1, hi1, _⟩ := runE_faulty_sound a z hab hck hk rk hr hmsl n s b _ _ _ hc hab1 hi h1
+      have hst1 := runE_stack a n s b _ _ _ h1
+      split at h
+      · cases h
+      · cases h
+      · rename_i w hdc
+        obtain ⟨s2, h2⟩ := runE_faulty_complete a z hab hck hk rk hr hmsl n s1 c w hc1 (by rw [hst1]; exact hab2) hi1 hdc
+        cases h
+        exact ⟨s2, by simp [runE, h1, h2]⟩
+end
+
+/-- one top-level request under faults, from a state holding fault-free meanings -/
+theorem request_faulty (a z : Sys P) (hab : FewerFaults a z) (hck : a.ckey = z.ckey) (hk : SlotCoherent z)
+    (rk : Nat → Nat) (hr : VarRanked z rk) (hmsl : 1 ≤ a.msl) (n : Nat) (s : St P) (hc : Cons z s.cache)
+    (hs : s.stack = []) (hi : s.inval = []) (k : Node P) (r : Res) (g : Bool) (s' : St P)
+    (h : request a n s k = some (r, g, s')) :
+    Cons z s'.cache ∧ s'.stack = [] ∧ s'.inval = [] ∧
+    (∀ x, r = .ok x → ∃ m, den z m k.1 k.2 = some (.ok x)) ∧
+    (∀ x, den a n k.1 k.2 = some (.ok x) → r = .ok x) := by
+  have habv : Above rk s.stack k.1 := by rw [hs]; intro j hj; cases hj
+  unfold request at h
+  cases hrun : run a n s k.1 k.2 with
+  | none => rw [hrun] at h; cases h
+  | some res =>
+    obtain ⟨r1, g1, s1⟩ := res
+    rw [hrun] at h
+    simp only [Option.some.injEq, Prod.mk.injEq] at h
+    obtain ⟨rfl, rfl, rfl⟩ := h
+    obtain ⟨_, hc1, hi1, hv1⟩ := run_faulty_sound a z hab hck hk rk hr hmsl n s k.1 k.2 _ _ _ hc habv hi hrun
+    have hst := run_stack a n s k.1 k.2 _ _ _ hrun
+    rw [hs] at hst
+    rw [if_pos hst, purge_of_inval_nil a s1 hi1]
+    refine ⟨hc1, hst, hi1, hv1, ?_⟩
+    intro x hx
+    obtain ⟨s2, h2⟩ := run_faulty_complete a z hab hck hk rk hr hmsl n s k.1 k.2 x hc habv hi hx
+    rw [hrun] at h2
+    simp only [Option.some.injEq, Prod.mk.injEq] at h2
+    exact h2.1
+
 end OFCore.Engine
